@@ -234,8 +234,8 @@ pub fn tpl_strategy(i: usize, dim: usize) -> BoxedStrategy<Tpl> {
         0 => (1u32..12, 0u32..12, prob(), dev(), prob()).prop_map(|(pop, t, pm, dev, pc)| Tpl::RealGa { pop, tour: 1 + t % pop, pm, dev, pc }).boxed(),
         1 => (1u32..12, 0u32..12, prob(), prob(), prob()).prop_map(|(pop, t, rm, pc, pm)| Tpl::BinaryGa { pop, tour: 1 + t % pop, rm, pc, pm }).boxed(),
         2 => (1u32..10, 1u32..12, dev()).prop_map(|(pop, lambda, dev)| Tpl::Es { pop, lambda, dev }).boxed(),
-        3 => (1u32..3, 0u32..8, prop_oneof![Just(0.5), Just(1.0), Just(2.0), 0.01f64..2.0], prob()).prop_map(|(y, extra, f, pc)| Tpl::De { pop: 2 * y + 1 + extra, y, f, pc }).boxed(),
-        4 => (1u32..13, 0.0f64..1.2, 0.0f64..1.2, 0.0f64..2.5, 0.0f64..2.5, prop_oneof![Just(0.001), Just(0.1), Just(1.0), Just(10.0)]).prop_map(|(n, w0, w1, c1, c2, vmax)| Tpl::Pso { n, w0, w1, c1, c2, vmax }).boxed(),
+        3 => (1u32..3, 0u32..8, prop_oneof![Just(0.0), Just(0.5), Just(1.0), Just(2.0), 0.01f64..2.0], prob()).prop_map(|(y, extra, f, pc)| Tpl::De { pop: 2 * y + 1 + extra, y, f, pc }).boxed(),
+        4 => (1u32..13, prop_oneof![1 => Just(0.0), 5 => 0.0f64..1.2], prop_oneof![1 => Just(0.0), 5 => 0.0f64..1.2], 0.0f64..2.5, 0.0f64..2.5, prop_oneof![Just(0.001), Just(0.1), Just(1.0), Just(10.0)]).prop_map(|(n, w0, w1, c1, c2, vmax)| Tpl::Pso { n, w0, w1, c1, c2, vmax }).boxed(),
         5 => (prop_oneof![Just(1.0), Just(100.0), 0.01f64..50.0], prop_oneof![Just(0.0), Just(0.9), 0.0f64..0.999], dev()).prop_map(|(t0, alpha, dev)| Tpl::RealSa { t0, alpha, dev }).boxed(),
         6 => (prop_oneof![Just(1.0), Just(100.0), 0.01f64..50.0], prop_oneof![Just(0.0), Just(0.9), 0.0f64..0.999], swap).prop_map(|(t0, alpha, swap)| Tpl::PermSa { t0, alpha, swap }).boxed(),
         7 => (1u32..8, dev()).prop_map(|(nb, dev)| Tpl::RealLs { nb, dev }).boxed(),
@@ -252,10 +252,10 @@ pub fn tpl_strategy(i: usize, dim: usize) -> BoxedStrategy<Tpl> {
         18 => (1u32..8, prob(), 0.0f64..0.99, 0u32..6, 0.0f64..20.0, 0.0f64..50.0, 0.0f64..50.0, dev(), dev())
             .prop_map(|(init, mole_coll, ke_lr, alpha, beta, ke0, buffer, dev_wall, dev_dec)| Tpl::Cro { init, mole_coll, ke_lr, alpha, beta, ke0, buffer, dev_wall, dev_dec })
             .boxed(),
-        19 => (1usize..9, 0.0f64..5.0, 0.0f64..5.0, prop_oneof![Just(1e-6), Just(1.0), Just(1e3)], prop_oneof![Just(0.0), Just(0.01), Just(0.5), Just(0.99), Just(1.0)], 0.1f64..10.0)
+        19 => (1usize..9, prop_oneof![2 => Just(0.0), 1 => Just(0.5), 1 => Just(1.0), 5 => 0.0f64..5.0], prop_oneof![2 => Just(0.0), 1 => Just(0.5), 1 => Just(1.0), 5 => 0.0f64..5.0], prop_oneof![Just(0.0), Just(1e-6), Just(1.0), Just(1e3)], prop_oneof![Just(0.0), Just(0.01), Just(0.5), Just(0.99), Just(1.0)], 0.1f64..10.0)
             .prop_map(|(ants, alpha, beta, tau0, rho, decay)| Tpl::As { ants, alpha, beta, tau0, rho, decay })
             .boxed(),
-        _ => (1usize..9, 0.0f64..5.0, 0.0f64..5.0, prop_oneof![Just(1e-6), Just(1.0), Just(1e3)], prop_oneof![Just(0.0), Just(0.01), Just(0.5), Just(0.99), Just(1.0)], 0.01f64..1.0, 0.0f64..5.0)
+        _ => (1usize..9, prop_oneof![2 => Just(0.0), 1 => Just(0.5), 1 => Just(1.0), 5 => 0.0f64..5.0], prop_oneof![2 => Just(0.0), 1 => Just(0.5), 1 => Just(1.0), 5 => 0.0f64..5.0], prop_oneof![Just(0.0), Just(1e-6), Just(1.0), Just(1e3)], prop_oneof![Just(0.0), Just(0.01), Just(0.5), Just(0.99), Just(1.0)], prop_oneof![1 => Just(0.0), 5 => 0.01f64..1.0], 0.0f64..5.0)
             .prop_map(|(ants, alpha, beta, tau0, rho, min, span)| Tpl::Mmas { ants, alpha, beta, tau0, rho, max: min + 0.01 + span, min })
             .boxed(),
     }
@@ -279,7 +279,7 @@ pub fn inst_strategy(kind: Kind) -> BoxedStrategy<Inst> {
             .prop_map(|(dim, kind, (lo, hi))| Inst::Real { dim, kind, lo, hi })
             .boxed(),
         Kind::Bits => (1usize..9).prop_map(|dim| Inst::Bits { dim }).boxed(),
-        Kind::Perm => (3usize..9, 0u8..7, 0u64..1000).prop_map(|(n, kind, seed)| Inst::Tsp { n, kind, seed }).boxed(),
+        Kind::Perm => (3usize..9, 0u8..8, 0u64..1000).prop_map(|(n, kind, seed)| Inst::Tsp { n, kind, seed }).boxed(),
     }
 }
 
@@ -290,12 +290,18 @@ pub fn run_spec_strategy(which: Option<usize>, max_iters: u32) -> BoxedStrategy<
         None => (0usize..21).boxed(),
     };
     idx.prop_flat_map(move |i| inst_strategy(kind_of_index(i)).prop_flat_map(move |inst| (tpl_strategy(i, inst.dim()), Just(inst), 0u32..=max_iters, any::<u64>())))
-        .prop_map(|(tpl, mut inst, iters, seed)| {
+        .prop_map(|(mut tpl, mut inst, iters, seed)| {
             // IWO's selection documents infinite objective values as unusable input
             if let (Tpl::Iwo { .. }, Inst::Real { kind, .. }) = (&tpl, &mut inst) {
                 if *kind == RealKind::Infeasible {
                     *kind = RealKind::Sphere;
                 }
+            }
+            // instances in a unit of 1e-160: with alpha + beta > 1 the sampling weights tau^alpha * (1/d)^beta of the
+            // unchanged code overflow (recorded finding D23, probed by a directed case in C19); excluded by construction
+            if let (Tpl::As { alpha, beta, .. } | Tpl::Mmas { alpha, beta, .. }, Inst::Tsp { kind: 7, .. }) = (&mut tpl, &inst) {
+                *alpha = alpha.min(0.5);
+                *beta = beta.min(0.5);
             }
             RunSpec { tpl, inst, iters, seed }
         })
